@@ -39,10 +39,8 @@ package consensus
 //@ extern proxy.AppConns.Query
 //@   pure
 //@   assigns nothing
-// ASSUMED: the application reports the height it has committed.
-//@ extern proxy.AppConnQuery.InfoSync
-//@   assigns nothing
-//@   ensures truthful: result1 == nil ==> result0.LastBlockHeight == appH
+// (The contract of AppConnQuery.InfoSync - the application reports the height it has committed - is declared in
+// state/zz_verif_contracts.go.)
 
 //@ import merkle github.com/tendermint/tendermint/crypto/merkle
 //@ extern types.NewValidatorSet
@@ -129,11 +127,10 @@ package consensus
 //@   sets validMsg = ite(result == nil, payload(self), 0) when true
 //@ extern log.Logger.Debug
 //@   assigns nothing
-//@ extern p2p.Switch.StopPeerForError
-//@   assigns except(consensus)
 //@ extern p2p.Peer.Get
 //@   assigns nothing
 //@ extern p2p.Peer.ID
+//@   pure
 //@   assigns nothing
 //@ func MsgFromProto
 //@   trusted
